@@ -149,6 +149,16 @@ CHECKS = {
             "stay untouched; ensure_access_granularity is executed with a symbolic unbounded stride on a real op/context.",
             "shapes concrete; snax_gemmx only; i8/i32 operands.",
             "concrete pass runs + z3 injectivity queries over symbolic index pairs; symbolic execution of the padding kernel", "3/C09"),
+    "C05": (TV,
+            "Translation validation of snax-copy-to-dma: a memref.copy between an enumerated pair of layouts (identity, strided with "
+            "offset, tiled-strided depth<=3, static and dynamic shapes/strides/offsets) is lowered by the real pass; the emitted "
+            "arith/scf/func.call code runs in the symbolic IR interpreter on a DMA machine (argument order from snax_rt.h). z3 proves "
+            "for a symbolic logical index and byte that the destination byte is written by some transfer and that every transfer "
+            "writing it reads the corresponding source byte (any transfer order is then right); for static shapes every byte "
+            "read/written lies in the source/destination footprint (expanded).",
+            "disjoint buffers; equal tile bounds; dynamic sizes 1..3 outer tiles; non-overlapping dynamic strides; int-mode index "
+            "arithmetic; known finding: dynamic strides collapsed into one 1-D transfer (blessed by upstream filecheck).",
+            "bounded symbolic execution of emitted IR on a DMA transfer-log machine + z3 (LIA with concrete div/mod)", "3/C05"),
 }
 
 NOT_YET = "check not built yet (work in progress in this round); no claim is made"
